@@ -27,7 +27,12 @@ InitSet == \E E \in SUBSET Pairs :
 InitSeq == \E D \in [NodesC -> SeqsUpTo(NodesC, K)] :
              /\ Loops \/ \A n \in NodesC : n \notin Range(D[n])
              /\ DInitWith(D, [i \in NodesC |-> i])
-MCInit == IF Mode = "set" THEN InitSet ELSE InitSeq
+\* "part": every labelled digraph with every PARTIAL listing - any duplicate-free sequence of nodes, in any order, of any
+\* length 0..N: nodes can be reachable without being listed, and listed in an order unrelated to their numbers
+Listings == { l \in SeqsUpTo(NodesC, N) : \A i, j \in 1..Len(l) : l[i] = l[j] => i = j }
+InitPart == \E E \in SUBSET Pairs, l \in Listings :
+             DInitWith([n \in NodesC |-> SetToSeq({ m \in NodesC : <<n, m>> \in E })], l)
+MCInit == IF Mode = "set" THEN InitSet ELSE IF Mode = "part" THEN InitPart ELSE InitSeq
 
 MCSpec == MCInit /\ [][DNext]_dvars
 
